@@ -90,7 +90,7 @@ func h19Screen(w, h int) (Screen, *wScreen, *h19Page) {
 	}
 	t := s.(*baseScreen).screenImpl.(*wScreen)
 	s.SetSize(w, h)
-	for s.HasPendingEvent() {
+	for k := 0; k < 12 && s.HasPendingEvent(); k++ {
 		s.PollEvent()
 	}
 	return s, t, p
@@ -361,8 +361,8 @@ func H19_life() {
 			_ = s.Resume()
 		case 2:
 			s.SetSize(2+i, 1)
-			for s.HasPendingEvent() {
-				s.PollEvent()
+			for k := 0; k < 12 && s.HasPendingEvent(); k++ {
+				s.PollEvent() // after Fini PollEvent may return nil without consuming
 			}
 		case 3:
 			s.Show()
@@ -370,5 +370,8 @@ func H19_life() {
 			s.Fini()
 		}
 	}
-	vsymAssert(vsymHeld() == 0, "no call returns with the screen lock held")
+	// a call that returned with the screen lock held wedges the next locking call
+	// (under the engine: the path ends blocked; natively: the Go runtime reports the deadlock)
+	w, _ := s.Size()
+	vsymAssert(w >= 0, "Suspend, Resume, SetSize, Show and Fini return in any order and leave the screen usable")
 }
